@@ -1168,7 +1168,7 @@ func (e *versEngine) explore(ver string) ([]vpath, bool) {
 						if fr.verVals[a] {
 							passesVer = true
 						}
-						if fr.stVals[a] {
+						if fr.stVals[a] || loadedFromSt(fr.stVals, a, 0) {
 							passesSt = true
 						}
 					}
@@ -1366,4 +1366,26 @@ func constStringOfFunc(f *ssa.Function) (string, bool) {
 		return "", false
 	}
 	return constant.StringVal(c.Value), true
+}
+
+// loadedFromSt: v is loaded through fields of the trie being loaded (st.inner, st.inner.Leaves, ...):
+// a helper handed such a value rewrites the loaded message just like one handed the trie.
+func loadedFromSt(stVals map[ssa.Value]bool, v ssa.Value, d int) bool {
+	if d > 6 || v == nil {
+		return false
+	}
+	if stVals[v] {
+		return d > 0
+	}
+	switch x := v.(type) {
+	case *ssa.UnOp:
+		if x.Op == token.MUL {
+			return loadedFromSt(stVals, x.X, d+1)
+		}
+	case *ssa.FieldAddr:
+		return loadedFromSt(stVals, x.X, d+1)
+	case *ssa.Field:
+		return loadedFromSt(stVals, x.X, d+1)
+	}
+	return false
 }
